@@ -99,6 +99,109 @@ def find_func(mod, name):
     raise Unrecognised('function %s not found' % name)
 
 
+# same-module helpers that are *not* inlined: the extractor looks for calls
+# to them by name (chain functions are added per stage)
+NO_INLINE = {'_run_mapping', '_blob_to_hdf5_results', '_create_empty_stats_file',
+             '_prep_output_file', '_merge_masks',
+             '_merge_sparse_by_pair_files', '_prep_chunk', '_clean_up'}
+
+
+def _chain_names():
+    return set(f for st in STAGES for _, f, _ in st['chain'])
+
+
+def _worker_targets(mod):
+    """functions handed to Process(target=...) in this module"""
+    out = set()
+    for n in ast.walk(mod):
+        if isinstance(n, ast.Call):
+            for k in n.keywords:
+                if k.arg == 'target' and isinstance(k.value, ast.Name):
+                    out.add(k.value.id)
+    return out
+
+
+def _inline_body(stmts, funcs, skip, depth):
+    """replace `helper(...)` / `x = helper(...)` statements by the helper's
+    body (a private function of the same module, no early return), parameters
+    bound by plain assignments unless the argument is the same name"""
+    import copy
+    out = []
+    for s in stmts:
+        call = None
+        target = None
+        if isinstance(s, ast.Expr) and isinstance(s.value, ast.Call):
+            call = s.value
+        elif isinstance(s, ast.Assign) and isinstance(s.value, ast.Call) \
+                and len(s.targets) == 1:
+            call, target = s.value, s.targets[0]
+        helper = None
+        if call is not None and isinstance(call.func, ast.Name) \
+                and call.func.id in funcs and call.func.id.startswith('_') \
+                and call.func.id not in skip and depth > 0:
+            helper = funcs[call.func.id]
+        if helper is not None:
+            body = list(helper.body)
+            if body and isinstance(body[0], ast.Expr) and isinstance(
+                    getattr(body[0], 'value', None), ast.Constant) \
+                    and isinstance(body[0].value.value, str):
+                body = body[1:]            # docstring
+            rets = [n for b in body for n in ast.walk(b)
+                    if isinstance(n, ast.Return)]
+            tail_ret = body and isinstance(body[-1], ast.Return)
+            simple_args = not call.args or len(call.args) <= len(
+                helper.args.args)
+            if (len(rets) == 0 or (len(rets) == 1 and tail_ret)) \
+                    and simple_args and not helper.args.vararg \
+                    and not helper.args.kwarg:
+                new = []
+                params = [a.arg for a in helper.args.args]
+                binds = list(zip(params, call.args)) + [
+                    (k.arg, k.value) for k in call.keywords if k.arg]
+                for name, val in binds:
+                    if isinstance(val, ast.Name) and val.id == name:
+                        continue
+                    a = ast.Assign(targets=[ast.Name(id=name, ctx=ast.Store())],
+                                   value=copy.deepcopy(val))
+                    ast.copy_location(a, s)
+                    ast.fix_missing_locations(a)
+                    new.append(a)
+                inner = copy.deepcopy(body[:-1] if tail_ret else body)
+                inner = _inline_body(inner, funcs, skip | {helper.name},
+                                     depth - 1)
+                new.extend(inner)
+                if tail_ret and target is not None \
+                        and body[-1].value is not None:
+                    a = ast.Assign(targets=[copy.deepcopy(target)],
+                                   value=copy.deepcopy(body[-1].value))
+                    ast.copy_location(a, s)
+                    ast.fix_missing_locations(a)
+                    new.append(a)
+                out.extend(new)
+                continue
+        # recurse into compound statements
+        for f in ('body', 'orelse', 'finalbody'):
+            b = getattr(s, f, None)
+            if isinstance(b, list) and b and isinstance(b[0], ast.stmt):
+                setattr(s, f, _inline_body(b, funcs, skip, depth))
+        if isinstance(s, ast.Try):
+            for h in s.handlers:
+                h.body = _inline_body(h.body, funcs, skip, depth)
+        out.append(s)
+    return out
+
+
+def find_func_inlined(mod, name, depth=2):
+    """the function with calls to private helpers of the same module inlined
+    (one or two levels), so that a block moved into a helper is still seen"""
+    import copy
+    fn = copy.deepcopy(find_func(mod, name))
+    funcs = {n.name: n for n in mod.body if isinstance(n, ast.FunctionDef)}
+    skip = NO_INLINE | _chain_names() | _worker_targets(mod) | {name}
+    fn.body = _inline_body(fn.body, funcs, skip, depth)
+    return fn
+
+
 def callee(call):
     f = call.func
     if isinstance(f, ast.Attribute):
@@ -242,8 +345,21 @@ class StageExtractor(object):
         self.notes = []
 
     # -- dispatch loop ----------------------------------------------------
-    def loop_body(self, stmts, proc_vars, out):
+    def loop_body(self, stmts, proc_vars, out, depth=0):
         for i, s in enumerate(stmts):
+            # a draw from the parent generator in a simple statement of the
+            # loop body (hoisted out of the Process(...) call)
+            if isinstance(s, (ast.Assign, ast.Expr, ast.AugAssign)) \
+                    and not (isinstance(s, ast.Assign)
+                             and isinstance(s.value, ast.Call)
+                             and dotted(s.value).endswith('Process')) \
+                    and any(callee(c) == 'integers' for c in calls(s)):
+                if depth > 0:
+                    raise Unrecognised(
+                        'conditional draw from the parent generator '
+                        '(line %d)' % s.lineno)
+                out.append('.draw')
+                continue
             # p = multiprocessing.Process(...)
             if isinstance(s, ast.Assign) and isinstance(s.value, ast.Call) \
                     and dotted(s.value).endswith('Process') \
@@ -277,7 +393,7 @@ class StageExtractor(object):
                 continue
             if isinstance(s, (ast.If, ast.With, ast.Try)):
                 for b in block_lists(s):
-                    self.loop_body(b, proc_vars, out)
+                    self.loop_body(b, proc_vars, out, depth + 1)
                 continue
             if isinstance(s, (ast.For, ast.While)) and has_start(s):
                 raise Unrecognised('nested dispatch loop (line %d)' % s.lineno)
@@ -393,7 +509,12 @@ class StageExtractor(object):
     # -- function body ----------------------------------------------------
     def func_prog(self, idx):
         rel, fname, outparam = self.spec['chain'][idx]
-        fn = find_func(load(self.repo, rel), fname)
+        fn = find_func_inlined(load(self.repo, rel), fname)
+        for c in calls(fn):
+            if dotted(c) == 'signal.signal':
+                raise Unrecognised(
+                    '%s installs a signal handler (inherited by the forked '
+                    'workers: their exit codes may change)' % fname)
         nxt = self.spec['chain'][idx + 1][1] \
             if idx + 1 < len(self.spec['chain']) else None
         out = []
@@ -531,7 +652,7 @@ class StageExtractor(object):
         """(dispatch loop node, statements after it) of the innermost chain
         function"""
         rel, fname, _ = self.spec['chain'][-1]
-        fn = find_func(load(self.repo, rel), fname)
+        fn = find_func_inlined(load(self.repo, rel), fname)
 
         def find(stmts):
             for i, s in enumerate(stmts):
@@ -624,7 +745,7 @@ class StageExtractor(object):
         rel = self.spec['chain'][-1][0]
         if merger == '_merge_sparse_by_pair_files':
             rel = 'diff_exp/markers.py'
-        mfn = find_func(load(self.repo, rel), merger)
+        mfn = find_func_inlined(load(self.repo, rel), merger)
         return self._sorted_then_iterated(mfn)
 
     def merge_dictByKey(self):
@@ -717,7 +838,7 @@ def mapping_shape(repo):
               hdf5SkipsResults=False, hdf5ResultsGuarded=False)
     try:
         mod = load(repo, 'cli/from_specified_markers.py')
-        fn = find_func(mod, 'run_mapping')
+        fn = find_func_inlined(mod, 'run_mapping')
         tries = [s for s in fn.body if isinstance(s, ast.Try)]
         # the try that calls _run_mapping
         tr = None
@@ -851,6 +972,15 @@ def mapping_shape(repo):
             and isinstance(n.test.comparators[0], ast.Constant)
             and n.test.comparators[0].value == 'results'
             and isinstance(n.body[0], ast.Continue)
+            for n in ast.walk(b2h)) or any(
+            # metadata = {k: blob[k] for k in blob if k != 'results'}
+            isinstance(n, ast.Assign) and is_name(n.targets[0], 'metadata')
+            and isinstance(n.value, ast.DictComp)
+            and any(isinstance(t, ast.Compare) and len(t.ops) == 1
+                    and isinstance(t.ops[0], ast.NotEq)
+                    and isinstance(t.comparators[0], ast.Constant)
+                    and t.comparators[0].value == 'results'
+                    for g in n.value.generators for t in g.ifs)
             for n in ast.walk(b2h))
         # _blob_to_hdf5_results only under `if run_succeeded:` and
         # run_succeeded = False when 'results' not in output_blob
@@ -872,7 +1002,23 @@ def mapping_shape(repo):
                     and isinstance(a.value, ast.Constant)
                     and a.value.value is False for a in n.body)
             for n in ast.walk(b2h))
-        sh['hdf5ResultsGuarded'] = guarded and neg and len(outside) == 1
+        # or: run_succeeded = (... and 'results' in output_blob)
+        pos = any(
+            isinstance(n, ast.Assign) and is_name(n.targets[0],
+                                                  'run_succeeded')
+            and isinstance(n.value, ast.BoolOp)
+            and isinstance(n.value.op, ast.And)
+            and any(isinstance(t, ast.Compare) and len(t.ops) == 1
+                    and isinstance(t.ops[0], ast.In)
+                    and isinstance(t.left, ast.Constant)
+                    and t.left.value == 'results' for t in n.value.values)
+            for n in ast.walk(b2h))
+        others = [n for n in ast.walk(b2h) if isinstance(n, ast.Assign)
+                  and is_name(n.targets[0], 'run_succeeded')]
+        if pos and len(others) != 1:
+            pos = False
+        sh['hdf5ResultsGuarded'] = guarded and (neg or pos) \
+            and len(outside) == 1
     except (Unrecognised, SyntaxError, FileNotFoundError, IndexError,
             AttributeError):
         pass
